@@ -540,11 +540,30 @@ def thread_work(shard, tier, viols, counters, samples, keys, sets):
                 if hasattr(mods[name], f):
                     specs.append({'module': name, 'func': f, 'args': [a], 'id': nid, 'onemod': True})
                     nid += 1
+    # module sweep: this shard's share of *all* number modules, each hammered by all threads for a while (one extra
+    # trial): a module-level scratch variable shared between calls shows as a wrong answer
+    nshards = 8 if tier == 'quick' else 32
+    sweep_groups = []
+    for name in sorted(mods)[shard['part']::nshards]:
+        nums = C.corpus(name, limit=3, rng=rng)
+        args = list(nums)
+        for v in nums[:2]:
+            args += [v[:-1] + ('0' if v[-1:] != '0' else '1'), ' ' + v.lower() + ' ']
+        grp = []
+        for a in args:
+            for f in ('validate', 'is_valid', 'format', 'compact'):
+                if hasattr(mods[name], f):
+                    sp = {'module': name, 'func': f, 'args': [a], 'id': nid, 'sweep': True}
+                    nid += 1
+                    specs.append(sp)
+                    grp.append(sp)
+        if grp:
+            sweep_groups.append(grp)
     ref = oracle(specs, '0')
     evals = len(specs)
     ntrials = 8 if tier == 'quick' else 60
     orders = set()
-    for t in range(ntrials):
+    for t in range(ntrials + (1 if tier == 'quick' else 3)):
         n = rng.choice((2, 4, 8, 8, 16))
         plans = []
         walk_family = False
@@ -592,8 +611,18 @@ def thread_work(shard, tier, viols, counters, samples, keys, sets):
                     walk_family = True
                     plan.insert(0, [s for s in group if s['func'] == 'number_module_names'][0])
                 plans.append(plan)
+        if t >= ntrials:
+            n = 8
+            walk_family = False
+            plans = []
+            for _ in range(n):
+                plan = []
+                for grp in sweep_groups:
+                    plan += [rng.choice(grp) for _ in range(40)]
+                plans.append(plan)
+            counters['modules_swept_under_threads'] = counters.get('modules_swept_under_threads', 0) + len(sweep_groups)
         spec = {'seed': '%d:%s:%d' % (C.SEED, shard['name'], t), 'nthreads': n, 'plans': plans,
-                'yieldp': rng.choice((0.0, 0.01, 0.05, 0.2)), 'preimport_country_modules': not walk_family}
+                'yieldp': rng.choice((0.0, 0.01, 0.05, 0.2)) if t < ntrials else 0.2, 'preimport_country_modules': not walk_family}
         with tempfile.NamedTemporaryFile('w', suffix='.json', delete=False, dir=C.scratch_dir('C13')) as f:
             json.dump(spec, f)
             path = f.name
